@@ -546,6 +546,7 @@ def generate(ctx):
         # design level: laws of the interpreter
         laws=lambda: vlib.tlc(ctx, 'SvgPathLaws', 'SvgPathLaws_quick.cfg' if q else 'SvgPathLaws_thorough.cfg',
                               workers=w, heap='4g', timeout=3000),
+        laws2=lambda: (vlib.tlc(ctx, 'SvgPathLaws', 'SvgPathLaws_wide.cfg', workers=w, heap='4g', timeout=3000) if not q else None),
         pb=lambda: vlib.tlc(ctx, 'SvgPathGen', cfg_pb, workers=w, heap='6g', timeout=3000),
         ps=lambda: vlib.tlc(ctx, 'SvgPathGen', cfg_ps, workers=1, simulate='num=%d' % (60 if q else 600), depth=125,
                             seed=ctx.seed, timeout=1800),
@@ -553,14 +554,16 @@ def generate(ctx):
         ds=lambda: vlib.tlc(ctx, 'SvgDocGen', cfg_ds, workers=1, simulate='num=%d' % (400 if q else 4000), depth=45,
                             seed=ctx.seed, timeout=1800),
     )
-    with ThreadPoolExecutor(max_workers=5) as ex:
+    with ThreadPoolExecutor(max_workers=6) as ex:
         fut = {}
         for k, f in jobs.items():
             fut[k] = ex.submit(f)
             vlib.time.sleep(0.3)        # (vlib.tlc numbers its scratch directories without a lock)
         res = {k: f.result() for k, f in fut.items()}
-    for k in ('laws', 'pb', 'db'):
+    for k in ('laws', 'laws2', 'pb', 'db'):
         r = res[k]
+        if r is None:
+            continue
         if r['invariant_violations'] or r['errors'] or not r['completed']:
             raise vlib.Infra('design-level model checking (%s) did not pass:\n%s' % (k, r['out'][-3000:]))
         ctx.add_mc(r)
@@ -568,7 +571,7 @@ def generate(ctx):
         r = res[k]
         if r['errors'] or r['invariant_violations']:
             raise vlib.Infra('simulation (%s) failed: %s' % (k, r['out'][-1500:]))
-    ctx.coverage['laws_states'] = res['laws']['distinct']
+    ctx.coverage['laws_states'] = res['laws']['distinct'] + (res['laws2']['distinct'] if res['laws2'] else 0)
     pex = tlc_json_lines(res['pb']['out'])
     ctx.coverage['path_generator_states'] = res['pb']['distinct']
     ctx.coverage['paths_enumerated'] = len(pex)
@@ -581,7 +584,7 @@ def generate(ctx):
     ctx.coverage['docs_simulated'] = len(dsim)
     if not pex or not psim or not dex or not dsim:
         raise vlib.Infra('a generator produced nothing')
-    vlib.log('C05 generate: %.1fs (%s)' % (vlib.time.time() - t0, ', '.join('%s %.0fs' % (k, r['wall']) for k, r in res.items())))
+    vlib.log('C05 generate: %.1fs (%s)' % (vlib.time.time() - t0, ', '.join('%s %.0fs' % (k, r['wall']) for k, r in res.items() if r)))
     return pex, psim, dex, dsim
 
 
